@@ -15,6 +15,7 @@ CONSTANTS
   NameLen = %(nl)d
   FileAlpha = {%(fa)s}
   FileLen = %(fl)d
+  FileMin = %(fm)d
   MsgAlpha = {%(ma)s}
   MsgLen = %(ml)d
   LineNos = {%(lines)s}
@@ -37,6 +38,7 @@ CONSTANTS
   NameLen = %(nl)d
   FileAlpha = {%(fa)s}
   FileLen = %(fl)d
+  FileMin = %(fm)d
   MsgAlpha = {%(ma)s}
   MsgLen = %(ml)d
   LineNos = {%(lines)s}
@@ -89,20 +91,32 @@ def rstr(rng, lo, hi, special=0.35, forbid=(122,)):
     return out
 
 
+def rval(rng, hi, forbid=(122,)):
+    """a value of any kind (group name, test name, path, message, printed text).  The empty string and the one-character strings
+    are values like any other - and the ones a writer's `nothing stored yet' / `nothing to print' tests confuse with absence -
+    so they get a fixed share instead of the 1/hi a uniform length would give them"""
+    r = rng.random()
+    if r < 0.12:
+        return []
+    if r < 0.27:
+        return rstr(rng, 1, 1, forbid=forbid)
+    return rstr(rng, 2, hi, forbid=forbid)
+
+
 def random_exec(rng, max_groups, max_tests):
     ex = [["start", "", "", "", 0, rng.choice(["0", "0", "1"])]]
     run_ignored = ex[0][5] == "1"
     last = None
     for _ in range(rng.randint(0, max_groups)):
-        g = rstr(rng, 1, 10)
+        g = rval(rng, 10)
         if g == last:               # the registry takes a change of name as the group boundary
             g = g + [103]
         last = g
         ex.append(["group", hx(g), "", "", 0, ""])
-        files = [rstr(rng, 1, 14) for _ in range(2)]
+        files = [rval(rng, 14) for _ in range(2)]
         for _ in range(rng.randint(1, max_tests)):
             r = rng.random()
-            name = rstr(rng, 1, 10)
+            name = rval(rng, 10)
             tfile = rng.choice(files)
             tline = rng.choice([0, 1, 7, 70, 1234, 99999])
             if r < 0.12:
@@ -113,11 +127,11 @@ def random_exec(rng, max_groups, max_tests):
             if kind == "n" or run_ignored:
                 for _ in range(rng.choice([0, 0, 1, 1, 2, 3])):
                     if rng.random() < 0.25:
-                        ex.append(["print", hx(rstr(rng, 0, 12, forbid=(35,))), "", "", 0, ""])
+                        ex.append(["print", hx(rval(rng, 12, forbid=(35,))), "", "", 0, ""])
                     else:
-                        ffile = tfile if rng.random() < 0.5 else rng.choice(files + [rstr(rng, 1, 14)])
+                        ffile = tfile if rng.random() < 0.5 else rng.choice(files + [rval(rng, 14)])
                         fline = rng.choice([tline, tline + 3, max(0, tline - 1), 5])
-                        ex.append(["fail", hx(ffile), "", hx(rstr(rng, 0, 24)), fline, ""])
+                        ex.append(["fail", hx(ffile), "", hx(rval(rng, 24)), fline, ""])
             ex.append(["endtest", "", "", "", 0, ""])
         ex.append(["endgroup", "", "", "", 0, ""])
     ex.append(["end", "", "", "", 0, ""])
@@ -140,12 +154,49 @@ def long_exec(rng):
     return ex
 
 
+EDGE_VALUES = [[]] + [[c] for c in SPECIALS] + [[97], [32]]
+
+
+def edge_execs():
+    """boundary sweep: a run of three groups (the middle one carries the values under test, the outer ones are ordinary, so that
+    whatever the reporter keeps from one group or test to the next is set before and needed after) in which ONE kind of value at a
+    time - group name, test name, test path, failure path, failure message, printed text - is the empty string or a single
+    character (each special character, a letter, a blank), for normal and ignored tests, with and without run-ignored mode."""
+    A, B, F, M = [65], [66], [102, 46, 99], [109, 115, 103]
+    out = []
+    for field in ("group", "name", "file", "ffile", "msg", "text"):
+        for v in EDGE_VALUES:
+            for kind in ("n", "i"):
+                for ri in ("0", "1"):
+                    val = {"group": [71], "name": [116], "file": F, "ffile": F, "msg": M, "text": [120]}
+                    val[field] = v
+                    if kind == "i" and ri == "0" and field in ("ffile", "msg", "text"):
+                        continue        # an ignored test that is not run has no failures or prints: nothing new to sweep
+                    body = kind == "n" or ri == "1"
+                    ex = [["start", "", "", "", 0, ri],
+                          ["group", hx(A), "", "", 0, ""], ["test", hx([112]), hx(F), "", 3, "n"], ["endtest", "", "", "", 0, ""],
+                          ["endgroup", "", "", "", 0, ""],
+                          ["group", hx(val["group"]), "", "", 0, ""],
+                          ["test", hx([98]), hx(F), "", 5, "n"], ["endtest", "", "", "", 0, ""],
+                          ["test", hx(val["name"]), hx(val["file"]), "", 7, kind]]
+                    if body:
+                        ex.append(["print", hx(val["text"]), "", "", 0, ""])
+                        ex.append(["fail", hx(val["ffile"]), "", hx(val["msg"]), 9, ""])
+                    ex += [["endtest", "", "", "", 0, ""],
+                           ["test", hx([99]), hx(F), "", 11, "n"], ["endtest", "", "", "", 0, ""],
+                           ["endgroup", "", "", "", 0, ""],
+                           ["group", hx(B), "", "", 0, ""], ["test", hx([113]), hx(F), "", 13, "i"], ["endtest", "", "", "", 0, ""],
+                           ["endgroup", "", "", "", 0, ""], ["end", "", "", "", 0, ""]]
+                    out.append(ex)
+    return out
+
+
 def nontrivial(ex):
     """a run that exercises something beyond plain passing tests with plain names"""
     for l in ex:
         if l[0] in ("fail", "skip") or (l[0] == "test" and l[5] == "i"):
             return True
-        if l[0] in ("group", "test") and NEEDS_ESC & set(bytes.fromhex(l[1])):
+        if l[0] in ("group", "test") and (l[1] == "" or NEEDS_ESC & set(bytes.fromhex(l[1]))):
             return True
     return False
 
@@ -163,6 +214,17 @@ def key_fn(kind, ex, idx, observed):
             if helper and (tf & NEEDS_ESC):
                 return "reject:fail:helper-form:test-file-name-needs-escaping"
             return "reject:fail:" + ("helper-form" if helper else "plain-form")
+    # the class of the failing input: an empty group / test name is a class of its own (a writer that takes "" for `none')
+    g = t = None
+    for l in ex[:idx + 1] if 0 <= idx < len(ex) else []:
+        if l[0] == "group":
+            g, t = l, None
+        elif l[0] == "test":
+            t = l
+    if kind == "reject" and op in ("group", "endgroup") and g is not None and g[1] == "":
+        return "reject:%s:empty-group-name" % op
+    if kind == "reject" and op in ("test", "endtest") and t is not None and t[1] == "":
+        return "reject:%s:empty-test-name" % op
     return "%s:%s" % (kind, op)
 
 
@@ -190,9 +252,10 @@ def run(ctx):
         return ctx.finish("replay of one recorded execution", 1)
 
     # ---- leg 1: the reporter design has the property (exhaustive over small runs; escaping theorem over all short strings)
-    mcs = [("structure", {"na": "97, 39", "nl": 1, "fa": "102", "fl": 1, "ma": "93", "ml": 1, "lines": "3", "mg": 2, "mt": 2,
+    # names always range over the empty string as well; "structure" spends its size on the run (2 groups x 2 tests), "strings" on the values
+    mcs = [("structure", {"na": "39", "nl": 1, "fa": "102", "fl": 1, "fm": 1, "ma": "93", "ml": 1, "lines": "3", "mg": 2, "mt": 2,
                           "mf": 1 if quick else 2, "mp": 0, "el": 4 if quick else 5}),
-           ("strings", {"na": "97, 39", "nl": 1 if quick else 2, "fa": "102, 124", "fl": 1 if quick else 2, "ma": "93, 10", "ml": 1,
+           ("strings", {"na": "97, 39", "nl": 1 if quick else 2, "fa": "102, 124", "fl": 1 if quick else 2, "fm": 0, "ma": "93, 10", "ml": 1,
                         "lines": "3, 12", "mg": 1, "mt": 1, "mf": 1, "mp": 1, "el": 2})]
     ctx.notes["model"] = []
     for lab, c in mcs:
@@ -203,11 +266,16 @@ def run(ctx):
 
     # ---- leg 2: complete runs generated by TLC from the specification, executed through the real registry and reporter
     nontriv = set()
+    # every configuration's name domain contains the empty name (and one-character names); paths, messages and texts contain the
+    # empty string wherever fm / ml allow it
     gens = [
-        ("bfs1", {"na": "97, 39", "nl": 1, "fa": "102, 93", "fl": 1, "ma": "124", "ml": 1, "lines": "3, 12", "mg": 1, "mt": 1, "mf": 1, "mp": 1, "D": 12}, None, None),
-        ("bfs2", {"na": "39, 97", "nl": 1, "fa": "93", "fl": 1, "ma": "124", "ml": 0, "lines": "3", "mg": 2, "mt": 1 if quick else 2, "mf": 1, "mp": 0, "D": 24}, None, None),
-        ("bfs3", {"na": "39", "nl": 1, "fa": "93", "fl": 1, "ma": "124", "ml": 0, "lines": "3", "mg": 1, "mt": 3 if quick else 5, "mf": 1, "mp": 0, "D": 24}, None, None),
-        ("sim", {"na": "97, 39, 124", "nl": 2, "fa": "102, 91", "fl": 2, "ma": "109, 93, 10, 13", "ml": 2, "lines": "0, 12",
+        ("bfs1", {"na": "39" if quick else "97, 39", "nl": 1, "fa": "93" if quick else "102, 93", "fl": 1, "fm": 0, "ma": "124", "ml": 1,
+                  "lines": "3, 12", "mg": 1, "mt": 1, "mf": 1, "mp": 1, "D": 12}, None, None),
+        ("bfs2", {"na": "39", "nl": 1, "fa": "93", "fl": 1, "fm": 1, "ma": "124", "ml": 0, "lines": "3", "mg": 2, "mt": 1 if quick else 2,
+                  "mf": 1, "mp": 0, "D": 24}, None, None),
+        ("bfs3", {"na": "39", "nl": 1, "fa": "93", "fl": 1, "fm": 1, "ma": "124", "ml": 0, "lines": "3", "mg": 1, "mt": 3 if quick else 4,
+                  "mf": 1, "mp": 0, "D": 24}, None, None),
+        ("sim", {"na": "97, 39, 124", "nl": 2, "fa": "102, 91", "fl": 2, "fm": 0, "ma": "109, 93, 10, 13", "ml": 2, "lines": "0, 12",
                  "mg": 6, "mt": 4, "mf": 3, "mp": 1, "D": 40}, 6 if quick else 60, 60),
     ]
     for lab, c, sim, depth in gens:
@@ -232,6 +300,13 @@ def run(ctx):
     for e in execs:
         if nontrivial(e):
             nontriv.add(json.dumps(e))
+    # boundary sweep: one kind of value at a time empty or a single character, inside a run whose other groups and tests are ordinary
+    execs = edge_execs()
+    ctx.sample({"source": "boundary sweep (one value empty / one character)", "execution": ["\t".join(map(str, l)) for l in execs[0][:14]]})
+    conform(ctx, "edge-values", execs, run_harness, "Trace_TeamCity", tcfg, pcfg, key_fn, tlc_timeout=1500)
+    ctx.evaluations += sum(len(e) for e in execs)
+    for e in execs:
+        nontriv.add(json.dumps(e))
     # long values: a seeded change that buffered escaped output in 128-byte chunks and lost the second byte of an escape pair at a
     # chunk boundary went unnoticed while every generated value was shorter than 25 bytes
     execs = [long_exec(ctx.rng) for _ in range(8 if quick else 80)]
@@ -241,11 +316,13 @@ def run(ctx):
         nontriv.add(json.dumps(e)[:400])
     return ctx.finish(
         rule="executions = complete runs (registry callbacks start..end) generated by TLC from TeamCity.tla (exhaustive for 1 group x 1 test and "
-             "2 groups x 2-3 tests over small alphabets, simulation up to 6 groups) plus seeded random runs of up to 10/30 groups, each executed by "
+             "2 groups x 2-3 tests over small alphabets that always contain the empty string, simulation up to 6 groups), a boundary sweep (each kind of "
+             "value empty / one character) plus seeded random runs of up to 10/30 groups, each executed by "
              "the real TestRegistry on the real TeamCityTestOutput; the captured bytes are decoded by tools/teamcity_decode.py and the per-callback "
              "log is validated by TLC; distinct = distinct scripts; non-trivial = has a failure, an ignored or filtered-out test, or a name that needs escaping",
         distinct_nontrivial=len(nontriv), exhaustive=False,
-        assumptions=["names and paths are non-empty byte strings over printable ASCII plus CR and LF; test names contain no 'z' (the harness filters on it)",
+        assumptions=["names, paths, messages and printed texts are byte strings (the empty string and one-character strings included, in TLC-generated runs, "
+                     "the boundary sweep and the random driver) over printable ASCII plus CR and LF; test names contain no 'z' (the harness filters on it)",
                      "text printed by tests does not itself contain ##teamcity[",
                      "the wording of the location text is not specified, only that it ends with <failure file>:<line> and names <test file>:<line> when that differs",
                      "the duration value is not checked beyond being safely escaped"])
